@@ -8,6 +8,7 @@ import (
 	"reflect"
 	"sort"
 	"strings"
+	"sync/atomic"
 	"testing"
 	"time"
 
@@ -754,6 +755,34 @@ func pubScenario(w *vfWorld, r *vfkit.R, focus string, idx int) {
 		c := a.cs[rng.Intn(len(a.cs))]
 		sc.pubStep(a, c, i)
 	}
+	// a subscriber drops W from the own requested mode through a session which is not attached, naming itself
+	// explicitly, while the topic is loaded; then publishes through an attached session
+	if focus == "C03" && (kind == "grp" || kind == "chn") {
+		for _, a := range sc.actors {
+			if a.role != "member" || a.obo != nil {
+				continue
+			}
+			rows, _, _ := sc.rows()
+			row, ok := rows[a.u.uid]
+			if !ok || row.DeletedAt != nil {
+				break
+			}
+			c := a.cs[0]
+			if !c.attachState()[sc.canon] {
+				c.sub(sc.canon, nil)
+				w.e.vfQuiesce()
+			}
+			side := w.conn(a.u, false)
+			mode := (row.ModeWant &^ types.ModeWrite).String()
+			f := side.set(sc.canon, map[string]any{"sub": map[string]any{"user": a.u.uid.UserId(), "mode": mode}})
+			w.e.vfQuiesce()
+			sc.log("member sets own mode to %s naming itself, through an unattached session -> %s", mode, codeStr(f))
+			r.Hit("own_mode_changed_by_unattached_session_naming_self")
+			sc.pubStep(a, c, 105)
+			side.close()
+			break
+		}
+	}
 	// a participant unsubscribes and publishes again through the very session which asked to unsubscribe
 	if kind != "sys" {
 		for _, a := range sc.actors {
@@ -898,8 +927,98 @@ func pubRun(t *testing.T, focus string) {
 	if focus == "C03" && r.Batch() == 0 {
 		c03ReadOnlyAndDeleteRace(r, e)
 	}
+	if focus == "C02" {
+		for i := 0; i < r.Pick(3, 10); i++ {
+			c02PushBurst(r, e, i)
+		}
+	}
 	r.Info("quiesce_timeouts", vfQStats.Timeouts)
 	_ = time.Now
+}
+
+// c02PushBurst: two publishes accepted back to back while the recipients' unread counters are still being read
+// from a slow store: each accepted message gets its own push addressed to the entitled subscribers.
+func c02PushBurst(r *vfkit.R, e *vfEnv, idx int) {
+	if e.push == nil {
+		return
+	}
+	rng := r.Rand(int64(7700 + idx))
+	w := vfNewWorld(e, r, rng)
+	defer func() { w.closeAll(); e.vfQuiesce() }()
+	own, mem := w.user("owner", auth.LevelAuth), w.user("member", auth.LevelAuth)
+	co, cm := w.conn(own, false), w.conn(mem, false)
+	name, f := co.newGroup(false, map[string]any{"public": "burst"})
+	if f == nil || f.code() != 200 {
+		r.Inconclusive("c02 push burst: create failed")
+		return
+	}
+	cm.sub(name, nil)
+	cm.leave(name, false)
+	// unload the topic so that the users' cached counters are dropped, then load it again: the first pushes find
+	// the counters not yet read
+	co.leave(name, false)
+	e.vfQuiesce()
+	if !e.vfWaitUnloaded(name) {
+		r.Inconclusive("c02 push burst: topic not unloaded")
+		return
+	}
+	co.sub(name, nil)
+	e.vfQuiesce()
+	before := e.push.count()
+	ioSeen := int32(0)
+	vfRec.setFault(func(c *vfmem.Call) error {
+		if c.Op == "UserUnreadCount" {
+			atomic.AddInt32(&ioSeen, 1)
+			time.Sleep(60 * time.Millisecond)
+		}
+		return nil
+	})
+	n := 2 + rng.Intn(3)
+	var ids []string
+	from := co.frameCount()
+	for k := 0; k < n; k++ {
+		ids = append(ids, co.send("pub", map[string]any{"topic": name, "content": fmt.Sprintf("burst-%d", k)}))
+	}
+	want := map[int]bool{}
+	for _, id := range ids {
+		if fr := co.waitCtrl(id, from, vfReplyWait); fr != nil && fr.code() == 202 {
+			if v, ok := fr.params()["seq"].(float64); ok {
+				want[int(v)] = true
+			}
+		}
+	}
+	e.vfQuiesce()
+	vfWaitCond(3*time.Second, func() bool { return e.push.count()-before >= len(want) })
+	vfRec.setFault(nil)
+	e.vfQuiesce()
+	got := map[int]int{}
+	for _, rc := range e.push.snapshot()[before:] {
+		if rc.Payload.What == push.ActMsg && rc.Payload.Topic == name {
+			got[rc.Payload.SeqId]++
+			if _, ok := rc.To[mem.uid]; !ok {
+				r.Violation("push-recipients:burst:missing:member", fmt.Sprintf("push for seq %d is not addressed to the entitled member", rc.Payload.SeqId), nil)
+			}
+		}
+	}
+	if atomic.LoadInt32(&ioSeen) > 0 {
+		r.Hit("push_burst_while_counters_load")
+	}
+	r.Eval(fmt.Sprintf("push-burst/%d", len(want)))
+	for sq := range want {
+		if got[sq] != 1 {
+			r.Violation(fmt.Sprintf("push-count-%d:burst", got[sq]), fmt.Sprintf("%d messages accepted back to back (seqs %v) while the unread counters were being read: seq %d got %d push receipts, per seq %v", len(want), keysInt(want), sq, got[sq], got), nil)
+			break
+		}
+	}
+}
+
+func keysInt(m map[int]bool) []int {
+	var out []int
+	for k := range m {
+		out = append(out, k)
+	}
+	sort.Ints(out)
+	return out
 }
 
 func TestVfC02(t *testing.T) { pubRun(t, "C02") }
